@@ -160,12 +160,18 @@ Dup(q) == [i \in 1..(2 * Len(q)) |-> q[(i + 1) \div 2]]
 Refused(tg) == [k |-> "call", api |-> "Cmd", cmd |-> "SetSessionPrivilegeLevel", label |-> "refused", target |-> tg, keep |-> FALSE,
                 args |-> [Req |-> [PrivilegeLevel |-> 1]],
                 exp |-> [prop |-> "C06", outcome |-> "errclass", errclass |-> "other", reqs |-> <<>>]]
+\* a command made with a context that has already expired: an error, nothing transmitted - and still a call that was
+\* made and failed (C18)
+ExpiredCall(tg) == [k |-> "call", api |-> "Cmd", cmd |-> "GetSystemGUID", label |-> "expired", target |-> tg, keep |-> FALSE,
+                    ctx |-> [ms |-> 5000, expired |-> TRUE],
+                    exp |-> [prop |-> "C13", outcome |-> "error", value |-> <<>>, reqs |-> <<>>]]
 Script(id, k, tg, rev) ==
   LET main == StepsFor(IF rev THEN Rev(Cmds(k)) ELSE Cmds(k), k, tg, 1, IF rev THEN "C17" ELSE "C07", FALSE) IN
   [id |-> id, prefix |-> IF tg = "sess" THEN "hs" ELSE "",
    info |-> [family |-> "api", insess |-> tg = "sess", integLen |-> S.integLen, bmcSid |-> S.bmcSid],
    \* the same commands in reverse order: a result that differs only there depends on what preceded it (C17)
-   steps |-> IF tg = "sess" THEN << Refused(tg) >> \o main \o << Refused(tg) >> \o GetPriv(tg, (Len(main) \div 2) + 1, 3) ELSE << Refused(tg) >> \o main]
+   steps |-> IF tg = "sess" THEN << Refused(tg) >> \o main \o << Refused(tg) >> \o GetPriv(tg, (Len(main) \div 2) + 1, 3)
+             ELSE << Refused(tg) >> \o main \o << ExpiredCall(tg) >>]
 Twice(id, k, tg, vprop) ==
   [id |-> id, prefix |-> IF tg = "sess" THEN "hs" ELSE "",
    info |-> [family |-> "api-twice", insess |-> tg = "sess", integLen |-> S.integLen, bmcSid |-> S.bmcSid],
